@@ -69,13 +69,17 @@ func (c *vxCountCurve) Evaluate() (int, error) {
 func (c *vxCountCurve) CurrentValue() int { return 100 }
 
 type vxC15World struct {
-	cfg     vxC15Cfg
-	dir     string
-	fs      *env.FS
-	dev     *env.Dev
-	cfgPath string
-	dbPath  string
-	cmdLog  string
+	cfg      vxC15Cfg
+	dir      string
+	fs       *env.FS
+	dev      *env.Dev
+	cfgPath  string
+	dbPath   string
+	cmdLog   string
+	cmdState string
+	fanYaml  string
+	otherPwm string
+	confMap  bool // pwmMap currently present in the configuration file
 }
 
 var vxC15Seq int
@@ -88,31 +92,22 @@ func vxC15NewWorld(cfg vxC15Cfg, fs *env.FS, scratch string) *vxC15World {
 	}
 	w.dbPath = filepath.Join(w.dir, "fan2go.db")
 	w.cfgPath = filepath.Join(w.dir, "fan2go.yaml")
-	temp := filepath.Join(w.dir, "temp")
-	os.WriteFile(temp, []byte("50000"), 0644)
-	var fanYaml string
-	extra := ""
-	if cfg.ConfMap {
-		extra += "    pwmMap:\n      0: 0\n      64: 128\n      192: 255\n"
-	}
-	if cfg.MinMax {
-		extra += "    minPwm: 30\n    maxPwm: 200\n"
-	}
 	switch cfg.Kind {
 	case "hwmon":
 		w.dev = fs.NewDev("hwmon0", 1, 90, 2, true, true)
 		w.dev.RpmOf = func(pwm int) int { return pwm * 10 }
 		gosensors.VerifSetSpec([]gosensors.ChipSpec{{Prefix: "vxchip", BusType: 1, BusNr: 0, Addr: 0x290, Path: filepath.Dir(w.dev.Pwm), Fans: []int{1}, Temps: nil}})
-		fanYaml = "    hwmon:\n      platform: vxchip\n      rpmChannel: 1\n"
+		w.fanYaml = "    hwmon:\n      platform: vxchip\n      rpmChannel: 1\n"
 	case "file":
 		w.dev = &env.Dev{FS: fs}
 		w.dev.Pwm = fs.Add("filefan/pwm", 90)
 		w.dev.Rpm = fs.Add("filefan/rpm", 0)
 		fs.F(w.dev.Rpm).OnRead = func() (int, error) { return fs.Val(w.dev.Pwm) * 10, nil }
-		fanYaml = fmt.Sprintf("    file:\n      path: %s\n      rpmPath: %s\n", w.dev.Pwm, w.dev.Rpm)
+		w.fanYaml = fmt.Sprintf("    file:\n      path: %s\n      rpmPath: %s\n", w.dev.Pwm, w.dev.Rpm)
 	case "cmd":
 		w.cmdLog = filepath.Join(w.dir, "cmd.log")
-		state := filepath.Join(w.dir, "pwm")
+		w.cmdState = filepath.Join(w.dir, "pwm")
+		state := w.cmdState
 		os.WriteFile(state, []byte("90"), 0644)
 		set := filepath.Join(w.dir, "set.sh")
 		get := filepath.Join(w.dir, "get.sh")
@@ -121,14 +116,36 @@ func vxC15NewWorld(cfg vxC15Cfg, fs *env.FS, scratch string) *vxC15World {
 		os.WriteFile(get, []byte(fmt.Sprintf("#!/bin/sh\ncat %s\n", state)), 0755)
 		os.WriteFile(rpm, []byte(fmt.Sprintf("#!/bin/sh\necho $(( $(cat %s) * 10 ))\n", state)), 0755)
 		gosensors.VerifSetSpec(nil)
-		fanYaml = fmt.Sprintf("    cmd:\n      setPwm:\n        exec: %s\n        args: [\"%%pwm%%\"]\n      getPwm:\n        exec: %s\n      getRpm:\n        exec: %s\n", set, get, rpm)
+		w.fanYaml = fmt.Sprintf("    cmd:\n      setPwm:\n        exec: %s\n        args: [\"%%pwm%%\"]\n      getPwm:\n        exec: %s\n      getRpm:\n        exec: %s\n", set, get, rpm)
 	}
 	if cfg.Kind != "hwmon" {
 		gosensors.VerifSetSpec(nil)
 	}
+	// a second, never started fan whose id sorts before vxfan (target of `fan reset -i afan`)
+	w.otherPwm = fs.Add("otherfan/pwm", 55)
+	w.confMap = cfg.ConfMap
+	w.writeConfig()
+	return w
+}
+
+// writeConfig (re)writes the YAML configuration; the pwmMap of vxfan is present iff w.confMap.
+func (w *vxC15World) writeConfig() {
+	temp := filepath.Join(w.dir, "temp")
+	os.WriteFile(temp, []byte("50000"), 0644)
+	extra := ""
+	if w.confMap {
+		extra += "    pwmMap:\n      0: 0\n      64: 128\n      192: 255\n"
+	}
+	if w.cfg.MinMax {
+		extra += "    minPwm: 30\n    maxPwm: 200\n"
+	}
 	yaml := fmt.Sprintf(`dbPath: %s
 runFanInitializationInParallel: true
 fans:
+  - id: afan
+    curve: vxcurve
+    file:
+      path: %s
   - id: vxfan
     curve: vxcurve
     neverStop: false
@@ -142,11 +159,20 @@ curves:
       sensor: vxsensor
       min: 40
       max: 80
-`, w.dbPath, fanYaml, extra, temp)
+`, w.dbPath, w.otherPwm, w.fanYaml, extra, temp)
 	if err := os.WriteFile(w.cfgPath, []byte(yaml), 0644); err != nil {
 		panic(err)
 	}
-	return w
+}
+
+func (w *vxC15World) devPwm() int {
+	if w.cfg.Kind == "cmd" {
+		b, _ := os.ReadFile(w.cmdState)
+		v := -1
+		fmt.Sscanf(strings.TrimSpace(string(b)), "%d", &v)
+		return v
+	}
+	return w.fs.Val(w.dev.Pwm)
 }
 
 func vxLoadConfigLikeCli(path string) error {
@@ -198,6 +224,7 @@ type vxC15Obs struct {
 	Measure      bool // an ascending run of > 8 PWM writes before regulation
 	Err          string
 	Regulated    bool
+	RegulatedPwm int // device PWM after the third regulation cycle (before shutdown)
 }
 
 func vxClassify(writes []int) (sweep, measure bool) {
@@ -264,7 +291,9 @@ func (w *vxC15World) start(t *testing.T) (o vxC15Obs) {
 			}
 			var fan fans.Fan
 			for _, f := range fanMap {
-				fan = f
+				if f.GetId() == "vxfan" {
+					fan = f
+				}
 			}
 			marked := -1
 			cc := &vxCountCurve{id: "vxcurve"}
@@ -288,6 +317,7 @@ func (w *vxC15World) start(t *testing.T) (o vxC15Obs) {
 				case <-time.After(100*time.Millisecond + 300*time.Microsecond):
 				}
 			}
+			o.RegulatedPwm = w.devPwm()
 			cancel()
 			if err := <-done; err != nil {
 				o.Err = "Run: " + err.Error()
@@ -322,14 +352,14 @@ func vxGuardC15(fn func()) (p string) {
 }
 
 // the real `fan reset` / `fan init` cobra commands
-func (w *vxC15World) command(t *testing.T, which string) (o vxC15Obs) {
+func (w *vxC15World) command(t *testing.T, which string, id string) (o vxC15Obs) {
 	w.clearLog()
 	synctest.Test(t, func(t *testing.T) {
 		p := vxGuardC15(func() {
 			viper.Reset()
 			configuration.InitConfig(w.cfgPath)
 			prometheus.DefaultRegisterer = prometheus.NewRegistry()
-			fanId = "vxfan"
+			fanId = id
 			var err error
 			if which == "reset" {
 				err = resetCmd.RunE(resetCmd, nil)
@@ -375,47 +405,59 @@ func vxC15Run(t *testing.T, cfg vxC15Cfg, ops []string, fs *env.FS, scratch stri
 				bad(i, "C15 start failed", o.Err, o)
 				break
 			}
-			if m.HasCurve && (m.HasMap || cfg.ConfMap) && len(o.PreRegWrites) > 0 {
+			if m.HasCurve && (m.HasMap || w.confMap) && len(o.PreRegWrites) > 0 {
 				bad(i, "C15 start with stored characterisation still writes PWM before regulation ("+kindOf(o)+")", "both the RPM curve and the PWM map were stored (or the map is configured), yet the fan was driven before the first regulation cycle", o)
 			}
-			if cfg.ConfMap && o.Sweep {
+			if w.confMap && o.Sweep {
 				bad(i, "C15 configured pwmMap but the fan was swept", "a pwmMap given in the configuration must be used as is", o)
+			}
+			if w.confMap && o.Regulated && o.RegulatedPwm != 128 {
+				// curve value 100 -> request 100 (96 with minPwm 30 / maxPwm 200) -> nearest configured input 64 -> output 128
+				bad(i, "C15 configured pwmMap not used as is", fmt.Sprintf("with pwmMap {0:0, 64:128, 192:255} configured and curve value 100 the fan must be at 128 while regulating, but it is at %d", o.RegulatedPwm), o)
 			}
 			if cfg.MinMax && o.Measure {
 				bad(i, "C15 rpm-curve measurement although minPwm and maxPwm are configured", "README: with minPwm and maxPwm configured the initialization phase is skipped", o)
 			}
 			m.HasCurve = true
-			if !cfg.ConfMap {
+			if !w.confMap {
 				m.HasMap = true
 			}
+		case "togglemap":
+			// the user adds / removes the pwmMap of vxfan in the configuration file (no reset, no init)
+			w.confMap = !w.confMap
+			w.writeConfig()
+		case "reset-other":
+			o = w.command(t, "reset", "afan")
+			if o.Err != "" {
+				bad(i, "C15 fan reset of another fan failed", o.Err, o)
+			}
 		case "reset":
-			o = w.command(t, "reset")
+			o = w.command(t, "reset", "vxfan")
 			if o.Err != "" {
 				bad(i, "C15 fan reset failed", o.Err, o)
 			}
 			m = vxC15Model{}
 		case "init":
-			o = w.command(t, "init")
+			o = w.command(t, "init", "vxfan")
 			if o.Err != "" {
 				bad(i, "C15 fan init failed", o.Err, o)
 			}
 			m = vxC15Model{HasCurve: true, HasMap: true}
-			if cfg.ConfMap {
-				// RunInitializationSequence persists the (configured) map as well
-				m.HasMap = true
-			}
 		}
 		hc, hm, _ := vxDbState(w.dbPath)
 		if op == "reset" && (hc || hm) {
 			bad(i, "C15 fan reset left stored data behind", fmt.Sprintf("hasCurve=%v hasMap=%v", hc, hm), o)
 		}
-		if op != "reset" && o.Err == "" && (!hc || (!hm && !cfg.ConfMap)) {
+		if (op == "start" || op == "init") && o.Err == "" && (!hc || (!hm && !w.confMap)) {
 			bad(i, "C15 characterisation not stored after "+op, fmt.Sprintf("hasCurve=%v hasMap=%v", hc, hm), o)
+		}
+		if (op == "reset-other" || op == "togglemap") && (hc != m.HasCurve || (m.HasMap && !hm)) {
+			bad(i, "C15 stored data of the fan changed by "+op, fmt.Sprintf("model hasCurve=%v hasMap=%v, database hasCurve=%v hasMap=%v", m.HasCurve, m.HasMap, hc, hm), o)
 		}
 		last = o
 	}
 	hc, hm, dump := vxDbState(w.dbPath)
-	key = fmt.Sprintf("curve=%v map=%v db=%s", hc, hm, dump)
+	key = fmt.Sprintf("confMap=%v curve=%v map=%v db=%s", w.confMap, hc, hm, dump)
 	return
 }
 
@@ -452,7 +494,7 @@ func TestVX_C15(t *testing.T) {
 		rep.Evaluations = int64(len(rc.Ops))
 		return
 	}
-	alpha := []string{"start", "reset", "init"}
+	alpha := []string{"start", "reset", "init", "togglemap", "reset-other"}
 	var cfgs []vxC15Cfg
 	for _, k := range []string{"hwmon", "file", "cmd"} {
 		for _, cm := range []bool{false, true} {
